@@ -8,8 +8,9 @@ may be observed stale.
 
 The model is generic in the store (`σ`, `add`) and in the completion test (`enough`), so that
 the relation store of C11 can be plugged in. A schedule is an arbitrary list of
-(worker index, stale?) pairs: the scheduler picks which worker performs its next atomic action
-and whether a flag read in that action misses an update made by another thread.
+(worker index, stale?, abort?) triples: the scheduler picks which worker performs its next atomic
+action, whether a flag read in that action misses an update made by another thread, and what the
+caller's abort predicate answers if the action polls it.
 No Mathlib import.
 -/
 namespace Ymq.Sched
@@ -18,6 +19,7 @@ variable {ρ σ : Type}
 
 /-- atomic actions of a worker -/
 inductive Act (ρ : Type)
+  | poll             -- start of a work unit: `done.load() || prefs.abort()`; exit when either is seen
   | check            -- read the `done` flag (possibly stale); exit when it is seen set
   | add (r : ρ)      -- `rels.write().unwrap().add(r)`
   | publish          -- completion check: read the store under the read lock, maybe set `done`
@@ -27,7 +29,7 @@ inductive Act (ρ : Type)
 a polynomial yields is number theory, not scheduling) -/
 def compile : List (List ρ) → List (Act ρ)
   | [] => []
-  | u :: us => Act.check :: (u.map Act.add ++ (Act.publish :: compile us))
+  | u :: us => Act.poll :: Act.check :: (u.map Act.add ++ (Act.publish :: compile us))
 
 structure Cfg (ρ σ : Type) where
   store : σ
@@ -39,11 +41,16 @@ def setPc (pcs : List (List (Act ρ))) (w : Nat) (v : List (Act ρ)) : List (Lis
   pcs.set w v
 
 /-- one scheduling step: worker `w` performs its next atomic action; `stale` says whether a flag
-read performed by this action misses a concurrent `true` (Relaxed atomics give no freshness) -/
-def step (add : σ → ρ → σ) (enough : σ → Bool) (c : Cfg ρ σ) (w : Nat) (stale : Bool) : Cfg ρ σ :=
+read performed by this action misses a concurrent `true` (Relaxed atomics give no freshness);
+`abort` is what the caller's abort predicate answers if this action polls it (the predicate is
+arbitrary: the schedule carries its answers) -/
+def step (add : σ → ρ → σ) (enough : σ → Bool) (c : Cfg ρ σ) (w : Nat) (stale abort : Bool) : Cfg ρ σ :=
   match c.pcs[w]? with
   | none => c
   | some [] => c
+  | some (Act.poll :: rest) =>
+    if abort || (c.done && !stale) then { c with pcs := setPc c.pcs w [] }
+    else { c with pcs := setPc c.pcs w rest }
   | some (Act.check :: rest) =>
     if c.done && !stale then { c with pcs := setPc c.pcs w [] }
     else { c with pcs := setPc c.pcs w rest }
@@ -52,9 +59,9 @@ def step (add : σ → ρ → σ) (enough : σ → Bool) (c : Cfg ρ σ) (w : Na
   | some (Act.publish :: rest) =>
     { c with done := c.done || enough c.store, pcs := setPc c.pcs w rest }
 
-def run (add : σ → ρ → σ) (enough : σ → Bool) (c : Cfg ρ σ) : List (Nat × Bool) → Cfg ρ σ
+def run (add : σ → ρ → σ) (enough : σ → Bool) (c : Cfg ρ σ) : List (Nat × Bool × Bool) → Cfg ρ σ
   | [] => c
-  | (w, st) :: sched => run add enough (step add enough c w st) sched
+  | (w, st, ab) :: sched => run add enough (step add enough c w st ab) sched
 
 def init (s0 : σ) (progs : List (List (List ρ))) : Cfg ρ σ :=
   { store := s0, log := [], done := false, pcs := progs.map compile }
@@ -68,7 +75,20 @@ def finished (c : Cfg ρ σ) : Bool := c.pcs.all List.isEmpty
 def pendingAdds : List (Act ρ) → List ρ
   | [] => []
   | Act.add r :: rest => r :: pendingAdds rest
+  | Act.poll :: rest => pendingAdds rest
   | Act.check :: rest => pendingAdds rest
   | Act.publish :: rest => pendingAdds rest
+
+/-- number of actions up to and including the next abort poll (0 for a finished worker): what
+is left of the current work unit -/
+def untilPoll : List (Act ρ) → Nat
+  | [] => 0
+  | Act.poll :: _ => 1
+  | Act.check :: rest => 1 + untilPoll rest
+  | Act.add _ :: rest => 1 + untilPoll rest
+  | Act.publish :: rest => 1 + untilPoll rest
+
+/-- work that can still happen after an abort request: the remainders of the current units -/
+def abortBudget (c : Cfg ρ σ) : Nat := (c.pcs.map untilPoll).sum
 
 end Ymq.Sched
